@@ -2,6 +2,8 @@
 
 from __future__ import annotations
 
+from ..vloop import texc
+
 from fractions import Fraction as F
 import itertools
 from typing import Any
@@ -135,8 +137,8 @@ def run_case(kind: int, seq: tuple[tuple[int, int], ...]) -> list[tuple[str, str
                 if ev == "user-on":
                     t = w.spawn(dev.set_on(), name="harness-user")
                     w.loop.settle()
-                    if t.done() and t.exception() is not None:
-                        viols.append((exc_sig("command-raises", t.exception()), f"{t.exception()!r}; trace={trace}"))  # type: ignore[arg-type]
+                    if t.done() and texc(t) is not None:
+                        viols.append((exc_sig("command-raises", texc(t)), f"{texc(t)!r}; trace={trace}"))  # type: ignore[arg-type]
                     s = True
                 else:
                     s = ev.startswith("on")
